@@ -95,6 +95,21 @@ CHECKS.update({
     },
 })
 
+CHECKS.update({
+    "C12": {
+        "technique": "static analysis: advertised-vs-implemented check (THIR const of the client hello vs readers of the negotiated version in MIR), THIR call-chain table for highest_common_version, who-may-construct SessionId, origin/order of Context::new arguments, success-edge dominance in Session::new",
+        "text": "Decides: every advertised base version other than 1.0 requires version-dependent framing code (none exists, so only :base:1.0 may be advertised — fixed in b7bc1f8); highest common version = greatest element of the intersection (derived Ord, ascending variants); SessionId is NonZeroU32 built only by new/from_str, duplicates/missing hello children are errors; the Context reports the hello's session-id and capability sets; Ok(Session) only through the success edges of hello exchange and negotiation. NOT decided: 'if and only if well-formed' in full (C13/C14 reader analysis), exchange orderings.",
+        "note": "RFC 6242 §4.1 framing rule is the external reference; BTreeSet::last semantics trusted.",
+        "design_ref": "DESIGN.md §3 C12",
+    },
+    "C20": {
+        "technique": "static analysis: enumeration of formatting sinks from MIR; Debug-closure over the type graph (local items + derived/hand-written flags of dependency Debug impls read from crate metadata); audit of the redacting impl's MIR; forward taint of the raw secret",
+        "text": "Decides the type-and-dataflow part: no formatting sink's type closure reaches a secret-carrying type except through an audited hand-written redacting Debug; Password's Debug never reads its field and Password has no Display/Deref/AsRef; the raw password string flows only to authenticate_password; no private-key accessor is called; PEM bytes are never formatted. NOT decided: what russh/rustls/tokio log internally with the secret they were given; encodings are covered only in the sense that no sink receives the secret in any form.",
+        "note": "rustls-pki-types 1.7.0 and rustls 0.22.4 Debug impls reviewed by hand; the check fails if Cargo.lock moves off those versions.",
+        "design_ref": "DESIGN.md §3 C20",
+    },
+})
+
 NOT_APPLICABLE = {
     "C11": "Equality between a computed prefix-range set and the RPSL denotation over arbitrary IRR data: run-time values in three external crates (rpsl, irrc, generic-ip); no structural necessary condition in this repository's source that is not a frozen copy of today's query plan.",
 }
